@@ -1079,7 +1079,7 @@ static void run_C14()
         long nb = budget(48, 1024);
         for (int fn = 0; fn < FN_COUNT; ++fn)
         {
-            if (fn > FN_POW && fn != FN_IPOW)
+            if (fn > FN_POW && fn < FN_IPOW)
                 continue;
             for (int dbl = 0; dbl < 2; ++dbl)
                 if (selected(MATHFN[fn].name, dbl ? "f64" : "f32"))
@@ -1101,6 +1101,15 @@ static void run_C14()
                 if (special)
                     v = (k & 3) == 0 ? NAN : (k & 3) == 1 ? INFINITY : (k & 3) == 2 ? -INFINITY : 0.0;
                 double w = std::ldexp(1.0 + r.unit(), (int)(r.next() % 40) - 20);
+                if (it.fn >= FN_FMOD)
+                { // second operands over the whole exponent range (huge and tiny quotients x/y), both signs, and the specials
+                    if (it.idx & 1)
+                        w = std::ldexp(1.0 + r.unit(), emin + (int)(r.next() % (uint64_t)(emax - emin + 1)));
+                    if (r.next() & 1)
+                        w = -w;
+                    if (special || (it.idx % 16) == 7)
+                        w = ((k >> 2) & 3) == 0 ? 0.0 : ((k >> 2) & 3) == 1 ? INFINITY : ((k >> 2) & 3) == 2 ? NAN : -INFINITY;
+                }
                 if (it.fn == FN_IPOW)
                 { // integer exponents of every magnitude and both signs, incl. INT_MIN / INT_MAX; moderate bases
                     int kbit = (int)(it.idx % 32);
